@@ -23,6 +23,7 @@ import (
 	"net"
 	"os"
 	"sync"
+	"syscall"
 	"time"
 
 	"github.com/containerd/ttrpc"
@@ -65,12 +66,17 @@ const (
 //	              service connection carrying Bytes; "ttrpc": valid multiplexer frame, forged
 //	              ttRPC header + Bytes) and swallow whatever else the plugin sends
 type Plan struct {
-	Kind  string
-	Dir   int
-	K     int
-	Type  byte
-	Level string
-	Bytes []byte
+	Kind string
+	Dir  int
+	K    int
+	// cut: once the cut point is reached the proxy stops servicing that direction (what lies
+	// behind the cut point stays unread in the socket, so a sender with more than a socket
+	// buffer's worth of data blocks in its write) and closes both hops only StallMs later.
+	// A negative value: never (until the session is shut down).
+	StallMs int
+	Type    byte
+	Level   string
+	Bytes   []byte
 
 	ConnID    uint32 // trunk-level garbage: forged conn id
 	DeclLen   uint32 // declared payload length of the forged header (clamped to MaxDeclaredLen)
@@ -80,7 +86,8 @@ type Plan struct {
 
 // Report is what happened while a plan was armed.
 type Report struct {
-	Fired     bool   // cut: the connection was cut by the proxy
+	Fired     bool // cut: the cut point was reached
+	FiredAt   time.Time
 	Consumed  bool   // rewrite plans: a response frame was replaced
 	Fwd       [2]int // bytes forwarded per direction while armed
 	FirstLen  [2]int // multiplexer payload length of the first frame seen per direction (-1: none)
@@ -104,12 +111,14 @@ type Proxy struct {
 	closedAt time.Time
 	pumps    sync.WaitGroup
 	ready    chan struct{}
+	quit     chan struct{} // closed by Shutdown / CloseNow: ends a stall
+	quitOnce sync.Once
 	dialErr  error
 }
 
 // NewProxy listens on <dir>/<name>.sock and forwards the first connection to target.
 func NewProxy(dir, name, target string) (*Proxy, error) {
-	p := &Proxy{Path: dir + "/" + name + ".sock", target: target, ready: make(chan struct{})}
+	p := &Proxy{Path: dir + "/" + name + ".sock", target: target, ready: make(chan struct{}), quit: make(chan struct{})}
 	l, err := net.Listen("unix", p.Path)
 	if err != nil {
 		return nil, err
@@ -186,6 +195,7 @@ func (p *Proxy) Disarm() Report {
 
 // CloseNow ends the session from the plugin's end ("peer close"): both hops are closed.
 func (p *Proxy) CloseNow() {
+	p.quitOnce.Do(func() { close(p.quit) })
 	p.end("proxy")
 }
 
@@ -200,6 +210,7 @@ func (p *Proxy) Closer() (string, time.Time) {
 func (p *Proxy) Shutdown() {
 	p.l.Close()
 	<-p.ready
+	p.quitOnce.Do(func() { close(p.quit) })
 	p.end("proxy")
 	p.pumps.Wait()
 }
@@ -255,12 +266,15 @@ func (p *Proxy) readLimit(d, want int) int {
 // forward passes b on, honouring an armed cut. false = the session is over.
 func (p *Proxy) forward(d int, dst net.Conn, b []byte) bool {
 	fire := false
+	stall := 0
 	p.mu.Lock()
 	if p.plan != nil && p.plan.Kind == "cut" && p.plan.Dir == d && !p.rep.Fired {
 		if len(b) > p.left {
 			b = b[:p.left]
 			fire = true
+			stall = p.plan.StallMs
 			p.rep.Fired = true
+			p.rep.FiredAt = time.Now()
 		}
 		p.left -= len(b)
 	}
@@ -277,6 +291,32 @@ func (p *Proxy) forward(d int, dst net.Conn, b []byte) bool {
 		}
 	}
 	if fire {
+		if stall != 0 {
+			p.mu.Lock()
+			quit, rc := p.quit, p.rc
+			p.mu.Unlock()
+			var deadline time.Time
+			if stall > 0 {
+				deadline = time.Now().Add(time.Duration(stall) * time.Millisecond)
+			}
+			// not reading must not make the proxy blind: the runtime giving up on this peer
+			// (closing its end) is noticed through the socket's hang-up state
+		wait:
+			for {
+				select {
+				case <-quit:
+					break wait
+				case <-time.After(time.Millisecond):
+				}
+				if stall > 0 && !time.Now().Before(deadline) {
+					break
+				}
+				if d == R2P && peerHungUp(rc) {
+					p.end("runtime")
+					return false
+				}
+			}
+		}
 		p.end("proxy")
 		return false
 	}
@@ -387,6 +427,37 @@ func defuse(b []byte, stream uint32) []byte {
 		b[8] = 3
 	}
 	return b
+}
+
+// peerHungUp tells whether the other end of a unix stream connection has been closed, without
+// reading from it (EPOLLRDHUP / EPOLLHUP).
+func peerHungUp(c net.Conn) bool {
+	sc, ok := c.(syscall.Conn)
+	if !ok {
+		return false
+	}
+	raw, err := sc.SyscallConn()
+	if err != nil {
+		return false
+	}
+	hup := false
+	raw.Control(func(fd uintptr) {
+		ep, err := syscall.EpollCreate1(syscall.EPOLL_CLOEXEC)
+		if err != nil {
+			return
+		}
+		defer syscall.Close(ep)
+		evt := syscall.EpollEvent{Events: syscall.EPOLLRDHUP, Fd: int32(fd)}
+		if err := syscall.EpollCtl(ep, syscall.EPOLL_CTL_ADD, int(fd), &evt); err != nil {
+			return
+		}
+		var got [1]syscall.EpollEvent
+		n, err := syscall.EpollWait(ep, got[:], 0)
+		if err == nil && n == 1 && got[0].Events&(syscall.EPOLLRDHUP|syscall.EPOLLHUP|syscall.EPOLLERR) != 0 {
+			hup = true
+		}
+	})
+	return hup
 }
 
 func frame(conn uint32, payload []byte) []byte {
